@@ -24,6 +24,9 @@ pub enum Input {
     Raw(String),
     /// many deep expressions as attribute bindings (operator adjacency in the emitted JS: `- -a`, `+ +a`, `a- -b*c` ...)
     Exprs { exprs: Vec<crate::model::expr::Expr>, style: u64 },
+    /// the l-value shapes of C11 (access chains, conditionals, scope items, spreads under `model:`, `wx:for`, `change:`,
+    /// event bindings): every place where an l-value path array is emitted next to the value
+    Lvalues { tape: Vec<u16>, style: u64 },
 }
 
 #[derive(Clone, Debug, Serialize, Deserialize)]
@@ -100,6 +103,14 @@ pub fn sources(c: &Case) -> (Vec<(String, String)>, Vec<(String, String)>) {
             (vec![(entry, s)], vec![])
         }
         Input::Raw(t) => (vec![(entry, t.clone())], vec![("lib/s".into(), "module.exports = {} // c".into())]),
+        Input::Lvalues { tape, style } => {
+            let g = super::c11::build_group(tape);
+            let src = crate::compile::print_group(&g, *style);
+            let scripts = g.scripts.iter().map(|s| (s.path.clone(), s.js.clone())).collect();
+            let mut out = src.clone();
+            out.push((entry, src[0].1.clone()));
+            (out, scripts)
+        }
         Input::Exprs { exprs, style } => {
             let case = super::c03::Case { exprs: exprs.clone(), envs: vec![], style: *style, deliver: 0 };
             let g = super::c03::build_group(&case);
@@ -173,6 +184,7 @@ impl PropCheck for C02 {
                 .prop_map(|(group, style, mutations, adversarial)| Input::Group { group, style, mutations, adversarial }),
             1 => soup::soup(soup::WXML_ALPHABET, 80).prop_map(Input::Raw),
             3 => (proptest::collection::vec(gen::expr::expr(&gen::expr::ExprCfg::new(4)), 1..16), any::<u64>()).prop_map(|(exprs, style)| Input::Exprs { exprs, style }),
+            2 => (proptest::collection::vec(any::<u16>(), 30..260), any::<u64>()).prop_map(|(tape, style)| Input::Lvalues { tape, style }),
         ];
         (input, any::<u8>(), any::<bool>(), any::<u8>()).prop_map(|(input, path, dev, extra)| Case { input, path, dev, extra }).boxed()
     }
@@ -210,6 +222,7 @@ pub fn eval_case(w: &mut Worker, c: &Case) -> Result<Outcome, String> {
         Input::SizeRamp { n, .. } => out.labels.push(format!("size-ramp:{}", n)),
         Input::Raw(_) => out.labels.push("input:soup".into()),
         Input::Exprs { .. } => out.labels.push("input:deep-expressions".into()),
+        Input::Lvalues { .. } => out.labels.push("input:lvalue-shapes".into()),
     }
     out.labels.push(if c.dev { "dev-mode".into() } else { "non-dev".into() });
     out.labels.push(format!("entry-path:{}", c.path as usize % ENTRY_PATHS.len()));
@@ -235,7 +248,7 @@ pub fn eval_case(w: &mut Worker, c: &Case) -> Result<Outcome, String> {
             }
         }
     }
-    if matches!(c.input, Input::Exprs { .. }) || entry_src.contains("{{") && (entry_src.contains("wx:") || entry_src.contains("<wxs") || entry_src.contains("<template") || entry_src.contains("<slot") || entry_src.contains("<include")) {
+    if matches!(c.input, Input::Exprs { .. } | Input::Lvalues { .. }) || entry_src.contains("{{") && (entry_src.contains("wx:") || entry_src.contains("<wxs") || entry_src.contains("<template") || entry_src.contains("<slot") || entry_src.contains("<include")) {
         out.nt.push(fnv64(entry_src.as_bytes()));
     }
     out.sample = Some(json!({"entry_path": src.last().unwrap().0, "source": crate::util::truncate(entry_src, 300)}));
